@@ -326,6 +326,10 @@ def parse_events(stdout: str):
     i = 0
     while i < len(lines):
         line = lines[i]
+        # the interactive prompt is written without a line break, so a log line may follow it on the same line
+        for prompt in ("[s]top, [o]verride, [c]ustom path, [I]gnore: ", "Custom path: "):
+            while line.startswith(prompt):
+                line = line[len(prompt):]
         if line.startswith("Renamed: ") and i + 1 < len(lines):
             nxt = lines[i + 1]
             m = re.match(r"^\s+to: (.*)$", nxt)
